@@ -913,7 +913,9 @@ func negativeAAAATTL(m *dns.Msg) (uint32, bool) {
 	for _, rr := range m.Ns {
 		if soa, ok := rr.(*dns.SOA); ok {
 			ttl := soa.Hdr.Ttl
-			if soa.Minttl > 0 && soa.Minttl < ttl {
+			// MINIMUM 0 is a bound too ("do not cache this denial"),
+			// not a missing field: the same rule as the header TTL.
+			if soa.Minttl < ttl {
 				ttl = soa.Minttl
 			}
 			return ttl, true
